@@ -126,9 +126,10 @@ def rule_guard(repo: Repo) -> RuleResult:
 
 def rule_export(repo: Repo, rid: str, cls: str, keyword: str) -> RuleResult:
     from .. import strshape as S
+    from . import _c10_util as U
     r = RuleResult(rid, f"{cls}.export: first state, then per triplet one '({keyword} ...)' line followed by the post-state; whole list wrapped in one pair of parentheses",
                    "one step per (joint) action with chained states")
-    f = L.fn(repo, f"{cls}.export")
+    f = U.deep(repo, f"{cls}.export")      # helpers in place, list building written as loops with one append per line
     p = L.prov(repo, f)
     r.site(f.qn)
     rets = [x for x in L.func_returns(f) if x.value is not None]
